@@ -20,7 +20,7 @@ import (
 	"github.com/dolthub/dolt/go/zzverif/vsql"
 )
 
-const c33Rule = "rapid-generated histories of 2..6 commits (0..5 working-set operations each: CREATE/DROP/RENAME TABLE over a pool of 3 names, ADD (FIRST/AFTER/last, with/without DEFAULT)/DROP/RENAME/MODIFY COLUMN over a pool of 5 column names, INSERT/UPDATE/DELETE over primary keys 0..5, value types INT,BIGINT,VARCHAR,VARBINARY,DECIMAL,DATE,DATETIME(6),JSON,TEXT with NULLs, quotes, backslashes, NUL bytes) with tags and branches created, moved, deleted/re-created and checked out between commits; the harness records a model of every table at every commit and afterwards (and for a drawn earlier commit after every commit) reads every commit x every table name of the pool through AS OF 'hash' / 'branch' / 'tag' / 'HEAD~n' / 'branch~n' / 'tag~n', `db/hash`.t, `db/branch`.t, USE `db/<hash|tag|branch>` + SELECT/SHOW TABLES, and dolt_history_<t> (filtered to the commit, projected, and unfiltered) and compares column names and the multiset of rows with the model; a table absent at the commit must give error 1146 (or no history rows). Also AS OF 'hash' with an equality filter on the key and on integer columns indexed at the commit or at HEAD. Non-trivial: some commit other than the empty initial one differs from the writer's final HEAD in the presence of a table name or in that table's column list/types (so reading it with HEAD's schema or HEAD's table set would be wrong); distinct by the operation sequence."
+const c33Rule = "rapid-generated histories of 2..6 commits (0..5 working-set operations each: CREATE/DROP/RENAME TABLE over a pool of 3 names with 1..3 key columns listed by PRIMARY KEY in a drawn order (often not the declaration order), ADD (FIRST/AFTER/last, with/without DEFAULT)/DROP/RENAME/MODIFY COLUMN over a pool of 5 column names, INSERT/UPDATE/DELETE over primary keys 0..5, value types INT,BIGINT,VARCHAR,VARBINARY,DECIMAL,DATE,DATETIME(6),JSON,TEXT with NULLs, quotes, backslashes, NUL bytes) with tags and branches created, moved, deleted/re-created and checked out between commits; the harness records a model of every table at every commit and afterwards (and for a drawn earlier commit after every commit) reads every commit x every table name of the pool through AS OF 'hash' / 'branch' / 'tag' / 'HEAD~n' / 'branch~n' / 'tag~n', `db/hash`.t, `db/branch`.t, USE `db/<hash|tag|branch>` + SELECT/SHOW TABLES, and dolt_history_<t> (filtered to the commit, projected, and unfiltered) and compares column names and the multiset of rows with the model; a table absent at the commit must give error 1146 (or no history rows). Also AS OF 'hash' with an equality filter on the key and on integer columns indexed at the commit or at HEAD. Non-trivial: some commit other than the empty initial one differs from the writer's final HEAD in the presence of a table name or in that table's column list/types (so reading it with HEAD's schema or HEAD's table set would be wrong); distinct by the operation sequence."
 
 type c33Stats struct {
 	reads    int
